@@ -734,6 +734,8 @@ struct Matcher<'a> {
     base: usize,
     ops: Vec<ROp>,
     pads: Vec<(usize, usize)>,
+    /// a string operand found no NUL in the complete words it could see
+    string_ran_out: bool,
 }
 
 impl<'a> Matcher<'a> {
@@ -797,6 +799,7 @@ impl<'a> Matcher<'a> {
                 match bytes.iter().position(|b| *b == 0) {
                     None => {
                         self.pos = self.words.len();
+                        self.string_ran_out = true;
                         M::Fault(Fault::Missing)
                     }
                     Some(n) => match std::str::from_utf8(&bytes[..n]) {
@@ -1071,6 +1074,7 @@ pub fn ref_parse(bytes: &[u8]) -> RParse {
             base: off + 4,
             ops: vec![],
             pads: vec![],
+            string_ran_out: false,
         };
         let r = m.list(&gi.operands, rtype, 0);
         let mut classes: Vec<Fault> = vec![];
@@ -1084,6 +1088,11 @@ pub fn ref_parse(bytes: &[u8]) -> RParse {
                     // also run into the end of the stream
                     classes.push(Fault::Missing);
                     classes.push(Fault::Surplus);
+                    if m.string_ran_out {
+                        // the string may end in the trailing partial word (1-3 stray bytes)
+                        // and then be found undecodable (invalid UTF-8)
+                        classes.push(Fault::Undecodable);
+                    }
                 }
             }
             M::Ok => {
